@@ -25,7 +25,7 @@ TIMEOUT = {"quick": 1500, "thorough": 7200}
 RULE = (
     "part 1: index expressions over <= 4 symbols and <= 3 arguments (each argument 0-3 indices, output 0-4 indices incl. new "
     "axes and contracted symbols), block counts per dimension in {1,2,3} with per-argument broadcasting (1 block where the "
-    "symbol has more): sampled in quick, all expressions with <= 3 symbols / <= 2 arguments enumerated in thorough; every "
+    "symbol has more), 30% with one array in two argument positions under different index expressions: sampled in quick, all expressions with <= 3 symbols / <= 2 arguments enumerated in thorough; every "
     "output block checked. part 2: fusion DAGs up to depth 3 over key-function kinds {one-to-one (with coordinate permutation), "
     "several arguments (incl. the same array twice), list of blocks, stream (iterator) of blocks, alternating source, "
     "concatenating source, multi-output}, fused the way the optimiser does it (can_fuse_multiple_primitive_ops + fuse_multiple, "
@@ -215,6 +215,28 @@ def draw_blockwise_case(rng):
     if not any(a["ind"] for a in args):
         args[0]["ind"] = [0]
         args[0]["nb"] = [sym_blocks[0]]
+    cands = [a for a in args if len(a["ind"]) >= 2]
+    if cands and rng.random() < 0.3:
+        # the same array in two argument positions with different index expressions (x_ij, x_ji / x_ij, x_jk)
+        a = rng.choice(cands)
+        b = rng.choice([2, 2, 3])
+        ind2 = list(a["ind"])
+        while ind2 == a["ind"]:
+            rng.shuffle(ind2)
+        if rng.random() < 0.4:
+            other = [t for t in syms if t not in ind2]
+            ind2[rng.randrange(len(ind2))] = rng.choice(other) if other else ind2[0]
+            if len(set(ind2)) < len(ind2):
+                ind2 = list(reversed(a["ind"]))
+        a["nb"] = [b] * len(a["ind"])
+        rep = {"name": a["name"], "ind": ind2, "nb": [b] * len(ind2)}
+        if len(args) >= 3:
+            args[rng.choice([k for k, x in enumerate(args) if x is not a])] = rep
+        else:
+            args.append(rep)
+        involved = set(a["ind"]) | set(ind2)
+        for x in args:
+            x["nb"] = [(b if n > 1 else 1) if t in involved and x["name"] != a["name"] else n for t, n in zip(x["ind"], x["nb"])]
     used = sorted({s for a in args for s in a["ind"]})
     # the block count of a symbol is the max over the arguments that carry it
     for s in used:
@@ -248,6 +270,10 @@ def enumerate_blockwise_cases():
                                 args.append({"name": f"a{k}", "ind": list(ind), "nb": nb})
                             sbb = {s: max([n for a in args for t, n in zip(a["ind"], a["nb"]) if t == s]) for s in used}
                             yield {"part": 1, "out_ind": out_ind, "args": args, "sym_blocks": {str(k): v for k, v in sbb.items()}}
+                            if nargs == 2 and len(chosen[0]) == len(chosen[1]) == 2 and chosen[0] != chosen[1] and len(set(sum(([n for n in a["nb"]] for a in args), []))) == 1:
+                                # the same array under both index expressions (needs equal block counts on all its axes)
+                                same = [dict(a, name="a0") for a in args]
+                                yield {"part": 1, "out_ind": out_ind, "args": same, "sym_blocks": {str(k): v for k, v in sbb.items()}}
 
 
 # ---------------------------------------------------------------------------------------------
@@ -463,7 +489,7 @@ def shards(tier, seed):
              "enumerate": tier == "thorough", "watchdog_s": TIMEOUT[tier] - 30} for i in range(ns)]
 
 
-EXTRA = ("index_expressions", "output_blocks_checked", "declined_contractions", "fusion_dags", "fusions_performed", "dags_with_fusion")
+EXTRA = ("expressions_with_a_repeated_array", "index_expressions", "output_blocks_checked", "declined_contractions", "fusion_dags", "fusions_performed", "dags_with_fusion")
 
 
 def judge_case(case, res):
@@ -473,6 +499,9 @@ def judge_case(case, res):
         res["counters"]["index_expressions"] += 1
         if err:
             return [{"property": PROPERTY, "kind": "blockwise-addressing", "msg": f"{err} | {case}", "facts": {"part": 1}, "case": case}]
+        names = [a["name"] for a in case["args"]]
+        if len(set(names)) < len(names) and n != "declined":
+            res["counters"]["expressions_with_a_repeated_array"] += 1
         if n == "declined":
             res["counters"]["declined_contractions"] += 1
         else:
@@ -526,6 +555,7 @@ def finalize(tier, merged):
         "floors": [
             ("index expressions run through the real primitive", c.get("index_expressions", 0), 30000 if tier == "quick" else 500000),
             ("output blocks compared with the reference algebra", c.get("output_blocks_checked", 0), 150000 if tier == "quick" else 2000000),
+            ("expressions with one array in two argument positions under different index expressions", c.get("expressions_with_a_repeated_array", 0), 1500 if tier == "quick" else 20000),
             ("fusion DAGs in which at least one fusion happened", c.get("dags_with_fusion", 0), 8000 if tier == "quick" else 300000),
             ("distinct key-function kinds in fused DAGs", len(merged["hist"].get("ops", {})), 8),
         ],
